@@ -6,6 +6,18 @@ CHECKS = {
  "C01": dict(cat="exploration", tech="property-based differential testing: Hypothesis-generated assignments/formats/level structures run on an IR abstract machine and natively (LLVM), compared with an exact-rational sum-of-products reference; metamorphic companions (formats, commutation, renaming)",
    text="Every generated (assignment, formats, sizes, stored inputs) case whose kernel is produced is executed and compared coordinate-by-coordinate with an independent exact-rational meaning; held on all cases generated within the stated bounds (<=6 leaves, order<=3, sizes<=4). Exploration, not proof.",
    note="Trusted: the harness's reference semantics (40 lines), the abstract machine (cross-checked against gcc and LLVM by C06), tensora's parser for turning case text into a Problem (checked by C12).", ref="DESIGN.md §3 C01"),
+ "C02": dict(cat="exploration", tech="property-based testing with a validity predicate: generated kernels run at initial capacities 1,2,3,default on the IR abstract machine (exact block lengths, init bits) and natively; result round-trips (pickle, to_format, copy kernel)",
+   text="Every generated kernel with a compressed output level is executed at four initial capacities; the final heap must satisfy the stored-tensor invariants with exact array lengths, and the native result must survive pickling, conversion, comparison and re-use as an input. Held on all generated cases within the bounds.",
+   note="Trusted: the abstract machine's heap model (realloc copies init bits, realloc(p,0) frees), the validity predicate (60 lines).", ref="DESIGN.md §3 C02"),
+ "C03": dict(cat="exploration", tech="property-based testing against a set-semantics reference model: stored level-prefixes of generated sparse outputs (abstract machine) must lie in the independently computed structural support",
+   text="For every generated kernel with a compressed output level, each stored prefix at each compressed level must extend to a coordinate in the support computed from the stored coordinate sets of the inputs (products intersect, sums unite, contraction projects, literals everywhere). One-directional, as stated. Exploration within bounds.",
+   note="Trusted: the support model (25 lines) and the machine's decoding of the output heap.", ref="DESIGN.md §3 C03"),
+ "C04": dict(cat="exploration", tech="history-based property testing on the IR abstract machine: assemble once, freeze structure and forbid allocation, compute on Hypothesis-drawn re-valuations, compare with evaluate and the exact-rational reference after every step",
+   text="Generated histories (assemble; compute x 2..4 with re-valued inputs) run on the abstract machine with the structure read-only and allocation forbidden during compute; structure must equal evaluate's block for block, values must equal evaluate and the reference after each compute.",
+   note="Trusted: abstract machine heap model; exact value class.", ref="DESIGN.md §3 C04"),
+ "C05": dict(cat="exploration", tech="property-based safety checking: all three generated kernel kinds executed on a trapping IR abstract machine (bounds, initialisation, ownership, int32 range, deterministic step budget) at initial capacities 1,2,3,default; thorough adds gcc ASan+UBSan on the emitted C",
+   text="Every load, store and reallocation of generated evaluate/assemble/compute kernels is checked on the abstract machine; inputs are compared before/after; returned arrays must be live and long enough. Exploration within bounds (sizes<=4, order<=3).",
+   note="Trusted: abstract machine trap rules (validated against gcc/LLVM by C06 and by selftest snippets).", ref="DESIGN.md §3 C05"),
 }
 def main():
     checks = []
